@@ -52,6 +52,8 @@ Fixpoint dtbl (t : list ((str * str) * option str)) (d f : str) : option str :=
   end.
 Definition rv_eqb := res_eqb_nopos val_eqb.
 Definition rs_eqb := res_eqb_nopos str_eqb.
+Definition targ (L : lib) (e : left) : arg :=    (* a template string used as a filter argument *)
+  match eval_left L e with Ok (VStr sf s) => AStr sf s | _ => ANil end.
 Definition typed (L : lib) (e : left) (ch : list lfilter) : res val :=
   do v <- eval_left L e ;; eval_chain L ch v.
 """
@@ -150,6 +152,8 @@ class Src:
             return "true" if a[1] else "false"
         if k == "nil":
             return "nil"
+        if k == "tmpl":
+            return self.left(a)
         return self.var(a[1])
 
     def filt(self, f: tuple) -> str:
@@ -223,6 +227,8 @@ def c_arg(a: tuple) -> str:
         return f"(ABool {C.cbool(a[1])})"
     if k == "nil":
         return "ANil"
+    if k == "tmpl":
+        return f"(targ L {c_left(a)})"      # L is bound by the enclosing case term
     v = a[1]
     if isinstance(v, str):
         return f"(AStr false {C.cstr(v)})"
@@ -244,6 +250,8 @@ def c_dval(a: tuple) -> str:
         return f"(VBool {C.cbool(a[1])})"
     if a[0] == "nil":
         return "VNil"
+    if a[0] == "tmpl":
+        return f"(arg_val (targ L {c_left(a)}))"
     return c_val(enc(a[1]))
 
 
@@ -675,8 +683,18 @@ def g_arg(r, plain: bool, near: str = "") -> tuple:  # noqa: ANN001
             i = r.randrange(len(near))
             return ("data", near[i:i + r.randint(1, 3)])
         return ("data", g_str(r, 4))
-    if k < 0.80:
+    if k < 0.72:
         return ("lit", g_lit(r, plain))
+    if k < 0.80:
+        parts: list[tuple] = []
+        for _ in range(r.randint(1, 3)):
+            if r.random() < 0.5:
+                parts.append((("lit", "".join(r.choice("ab ,;lt" if plain else "<>&ab ;") for _ in range(r.randint(1, 3)))), []))
+            else:
+                parts.append((("data", g_str(r, 4)), [(r.choice(["upcase", "escape", "strip", "downcase"]),)] if r.random() < 0.3 else []))
+        if not any(pe[0] == "data" for pe, _ in parts):
+            parts.append((("data", g_str(r, 3)), []))
+        return ("tmpl", parts)
     if k < 0.86:
         return ("ilit", r.choice([0, 1, 3, -2, 10]))
     if k < 0.92:
@@ -763,6 +781,8 @@ def uses_safe_or_markup_literal(left: tuple, chain: list[tuple]) -> bool:
         return any(c in s for c in SPECIALS)
 
     def arg_bad(a: Any) -> bool:
+        if isinstance(a, tuple) and a and a[0] == "tmpl":
+            return left_bad(a)
         return isinstance(a, tuple) and a and a[0] == "lit" and lit_bad(a[1])
 
     def left_bad(e: tuple) -> bool:
@@ -866,6 +886,33 @@ CORPUS: list[tuple[tuple, list[tuple]]] = [
     (("capture", [(("data", "<"), [])]), [("escape",)]),
     (("capture", [(("data", "<"), [])]), [("join", ("lit", "-"))]),
     (("lit", "a&lt;b"), [("split", ("lit", "")), ("join", None)]),
+    # template strings keep their literal text as Markup and escape the interpolated values (fix 611e27a):
+    # in an output statement / echo / cycle (the views), filtered, as a filter argument, in a capture
+    (("tmpl", [(("lit", "<b>"), []), (("data", "&<x>'\""), []), (("lit", "</b>"), [])]), []),
+    (("tmpl", [(("lit", "<b>"), []), (("data", "&<x>"), [("upcase",)]), (("lit", "</b>"), []), (("data", ["<", "&"]), [])]), [("upcase",)]),
+    (("tmpl", [(("lit", "<b>"), []), (("data", "&<x>"), [("escape",)]), (("data", 7), []), (("data", None), [])]), [("append", ("data", "<y>"))]),
+    (("tmpl", [(("lit", "a<"), []), (("data", "<x>"), [])]), [("escape",)]),
+    (("tmpl", [(("lit", "a<"), []), (("data", "<x>"), [])]), [("split", ("lit", "")), ("join", ("lit", ""))]),
+    (("data", "<x>"), [("append", ("tmpl", [(("lit", "<i>"), []), (("data", "&<y>"), []), (("lit", "</i>"), [])]))]),
+    (("data", "<x>"), [("prepend", ("tmpl", [(("lit", "<i>"), []), (("data", "&<y>"), [("downcase",)])]))]),
+    (("lit", "a-b"), [("replace", ("data", "-"), ("tmpl", [(("lit", "<i>"), []), (("data", "&"), [])]))]),
+    (("data", ["<a>", "&"]), [("join", ("tmpl", [(("lit", "<br>"), []), (("data", "<"), [])]))]),
+    (("data", ""), [("default", ("tmpl", [(("lit", "<d>"), []), (("data", "<"), [])]), False)]),
+    (("data", "a b c"), [("truncatewords", 1, ("tmpl", [(("lit", "<i>"), []), (("data", "<"), [])]))]),
+    (("data", "<a b c"), [("truncate", 5, ("tmpl", [(("lit", "<i>"), []), (("data", "<"), [])]))]),
+    (("capture", [(("tmpl", [(("lit", "<b>"), []), (("data", "<x>"), [])]), []), (("data", "<y>"), [])]),
+     [("append", ("tmpl", [(("lit", "<u>"), []), (("data", "&"), [])]))]),
+    # append / join separator / ellipsis use to_liquid_string(arg), not str(arg) (fix C19/0013)
+    (("data", "<x>"), [("append", ("nil",)), ("append", ("blit", True)), ("append", ("data", False)), ("append", ("ilit", -3))]),
+    (("data", ["<", "&"]), [("join", ("nil",))]),
+    (("data", ["<", "&"]), [("join", ("blit", False))]),
+    (("data", ["<", "&"]), [("join", ("data", 0))]),
+    (("data", "<a b> c"), [("truncatewords", 1, ("lit", "<i>"))]),
+    (("data", "<a b> c"), [("truncatewords", 1, ("nil",))]),
+    (("data", "<a b> c"), [("truncatewords", 2, ("data", True))]),
+    (("data", "<a b> c"), [("truncate", 4, ("lit", "<i>"))]),
+    (("data", "<a b> c"), [("truncate", 4, ("nil",))]),
+    (("lit", "<a b> c"), [("truncatewords", 1, ("lit", "<i>"))]),
 ]
 
 
